@@ -122,7 +122,7 @@ func checkAgainstReference(rc *core.RunCtx, cfg Cfg, out *Out) (ref *refexec.Res
 	}
 	p := out.Payloads[0]
 	if p.JSONErr != "" {
-		rc.Fail("invalid-json", "response", "data is not valid JSON (%s): %s", p.JSONErr, p.Raw)
+		rc.Fail("invalid-json", jsonSite(p.JSONErr), "data is not valid JSON (%s): %s\nvariant=%s op=%q", p.JSONErr, p.Raw, cfg.Variant.Name, cfg.Op.Query)
 		return nil, false
 	}
 	ref = Reference(out)
@@ -135,6 +135,14 @@ func checkAgainstReference(rc *core.RunCtx, cfg Cfg, out *Out) (ref *refexec.Res
 		return ref, false
 	}
 	return ref, true
+}
+
+// jsonSite keeps the kind of JSON defect (and the key for duplicates) but no positions.
+func jsonSite(msg string) string {
+	if i := strings.Index(msg, " at "); i >= 0 {
+		msg = msg[:i]
+	}
+	return strings.ReplaceAll(msg, " ", "-")
 }
 
 // dataSite classifies a data mismatch coarsely (for fingerprints): which side is null-er.
